@@ -30,16 +30,19 @@ Record h11p := {
   p_writes : list bool;               (* oracle: does the next transport write succeed *)
   p_events : list rdev;               (* oracle: results of the coming next_event calls of this segment *)
   p_trailing : bytes;                 (* oracle: connection.trailing_data[0] when asked *)
-  p_stream_id : Z }.
+  p_stream_id : Z;
+  p_closed : bool }.                  (* self.closed: the connection is not reused, Closed has been sent *)
 
 Definition p_init (sends : list (option bytes)) (writes : list bool) : h11p :=
   {| p_lib := lib_init; p_ws_mode := false; p_slot := SlotNone; p_stream_live := false; p_requests := 0; p_can_read := false;
-     p_parked := false; p_terminated := false; p_sends := sends; p_writes := writes; p_events := []; p_trailing := []; p_stream_id := 1 |}.
+     p_parked := false; p_terminated := false; p_sends := sends; p_writes := writes; p_events := []; p_trailing := []; p_stream_id := 1;
+     p_closed := false |}.
 
 Definition pset (p : h11p) (lib : h11lib) (wsm : bool) (sl : slot) (live : bool) (req : Z) (cr pk tm : bool)
            (sends : list (option bytes)) (writes : list bool) (evs : list rdev) (tr : bytes) : h11p :=
   {| p_lib := lib; p_ws_mode := wsm; p_slot := sl; p_stream_live := live; p_requests := req; p_can_read := cr; p_parked := pk;
-     p_terminated := tm; p_sends := sends; p_writes := writes; p_events := evs; p_trailing := tr; p_stream_id := p_stream_id p |}.
+     p_terminated := tm; p_sends := sends; p_writes := writes; p_events := evs; p_trailing := tr; p_stream_id := p_stream_id p;
+     p_closed := p_closed p |}.
 Definition set_lib l p := pset p l (p_ws_mode p) (p_slot p) (p_stream_live p) (p_requests p) (p_can_read p) (p_parked p) (p_terminated p) (p_sends p) (p_writes p) (p_events p) (p_trailing p).
 Definition set_wsmode b p := pset p (p_lib p) b (p_slot p) (p_stream_live p) (p_requests p) (p_can_read p) (p_parked p) (p_terminated p) (p_sends p) (p_writes p) (p_events p) (p_trailing p).
 Definition set_slot sl live p := pset p (p_lib p) (p_ws_mode p) sl live (p_requests p) (p_can_read p) (p_parked p) (p_terminated p) (p_sends p) (p_writes p) (p_events p) (p_trailing p).
@@ -49,6 +52,10 @@ Definition set_parked b p := pset p (p_lib p) (p_ws_mode p) (p_slot p) (p_stream
 Definition set_terminated b p := pset p (p_lib p) (p_ws_mode p) (p_slot p) (p_stream_live p) (p_requests p) (p_can_read p) (p_parked p) b (p_sends p) (p_writes p) (p_events p) (p_trailing p).
 Definition set_sends l p := pset p (p_lib p) (p_ws_mode p) (p_slot p) (p_stream_live p) (p_requests p) (p_can_read p) (p_parked p) (p_terminated p) l (p_writes p) (p_events p) (p_trailing p).
 Definition set_writes l p := pset p (p_lib p) (p_ws_mode p) (p_slot p) (p_stream_live p) (p_requests p) (p_can_read p) (p_parked p) (p_terminated p) (p_sends p) l (p_events p) (p_trailing p).
+Definition set_closed (b : bool) (p : h11p) : h11p :=
+  {| p_lib := p_lib p; p_ws_mode := p_ws_mode p; p_slot := p_slot p; p_stream_live := p_stream_live p; p_requests := p_requests p;
+     p_can_read := p_can_read p; p_parked := p_parked p; p_terminated := p_terminated p; p_sends := p_sends p; p_writes := p_writes p;
+     p_events := p_events p; p_trailing := p_trailing p; p_stream_id := p_stream_id p; p_closed := b |}.
 Definition set_events l p := pset p (p_lib p) (p_ws_mode p) (p_slot p) (p_stream_live p) (p_requests p) (p_can_read p) (p_parked p) (p_terminated p) (p_sends p) (p_writes p) l (p_trailing p).
 
 (* lenses for the stream automata *)
@@ -153,7 +160,7 @@ Section Proto.
           modify (set_can_read true) ;; note "can_read.set" ;;
           srv_send (SUpdated true)
       end
-    else modify (set_can_read true) ;; note "can_read.set" ;; srv_send SClosed.
+    else modify (set_closed true) ;; modify (set_can_read true) ;; note "can_read.set" ;; srv_send SClosed.
 
   (* H11Protocol.stream_send *)
   Definition stream_send (ev : sevent) : MP unit :=
@@ -236,7 +243,7 @@ Section Proto.
 
   Definition handle_one : MP bool :=
     p <- get ;;
-    if last_response_in_progress p then ret true else
+    if p_closed p || last_response_in_progress p then ret true else
     (if negb (p_ws_mode p) && l_waiting_100 (p_lib p)
      then send_h11_event (SInfo 100 (c_server_headers cfg)) else ret tt) ;;
     p <- get ;;
@@ -324,8 +331,8 @@ Section Proto.
     | IData evs =>
         p <- get ;;
         (* the client's last request is complete and the connection closes after the response in progress:
-           whatever else it sends is ignored (not even handed to h11) *)
-        if last_response_in_progress p then ret tt else
+           whatever else it sends is ignored (not even handed to h11); likewise once the connection has been closed *)
+        if p_closed p || last_response_in_progress p then ret tt else
         emit (OLib [VS "receive_data"]) ;; modify (set_events evs) ;; handle_events (S (S (length evs)))
     | IClosed => handle_closed
     | IApp m evs =>
